@@ -2,8 +2,8 @@ SPEC = dict(
     id="C35",
     bin="c35",
     cases_quick=2400,
-    cases_thorough=120000,
-    shard=150,
+    cases_thorough=30000,
+    shard=300,
     coq_dirs=["lib", "C34/Model.v", "C34/Proofs.v", "C34/Refine.v", "C18/Model.v", "C18/MapSpec.v", "C18/Proofs.v", "C35"],
     level="proof",
     technique="Coq theorems over a Gallina model of fixed_str_to_bytes / bytes_to_fixed_str (with a full well-formed-UTF-8 validator) + differential correspondence on the real helpers at widths 1/4/32/64, on arbitrary stored bytes, on Store key / RoleMetadata / Market / TokenConfig / Executor names and on the RoleStore enable-grant-has-disable-enable chain + round-trip oracle on the Rust outputs",
